@@ -24,7 +24,7 @@ func init() {
 		Builds:              []string{"default", "386"}, // the 386 build runs 1/6 of the random classes on a 32-bit target
 		Scale386:            6,
 		Parallel:            4, // cases are judged on 4 goroutines per shard: the library functions are stateless, shared state inside them shows up as wrong verdicts
-		Rule: "commute: (curve in {secp256k1, P-256}, seed, path, non-hardened index from {0, 1, 2^31-1, random}, plus the published P-256 vector whose child needs a retry): four children (idx, a sibling, idx again, another sibling) are derived from the SAME extended private key object and from the SAME Public() object; for each, DeriveChild then Public() vs. DeriveChild on Public(): key bytes, chain code, fingerprint. shift also includes secp256k1 shifts lambda*k and lambda^2*k (the shifted point has the same y as the key and another x). shift: (curve, scalar k, 32-byte shift) with shift in {0, 1, k, n-k, n-k+-1, n-1, n, n+1, 2^256-1, random < n, random >= n} and k in {1, 2, n-1, (n+-1)/2, random, and unreduced scalars in (n, 2^256) — n+1, n+2, random, 2^256-1 — for which the key is built directly from the exported fields of elliptic.PrivateKey (multiples of n have no public key and are skipped)}: PrivateKey.Shift and PublicKey.Shift must both report ErrInvalidKey or both succeed with pub' = point(priv') (the point computed by the affine model for the returned private scalar); no panic. Whether the common verdict/value is the one SLIP-0010 prescribes is counted here and judged by C02. " +
+		Rule: "commute: (curve in {secp256k1, P-256}, seed, path, non-hardened index from {0, 1, 2^31-1, random}, plus the published P-256 vector whose child needs a retry): four children (idx, a sibling, idx again, another sibling) are derived from the SAME extended private key object and from the SAME Public() object; for each, DeriveChild then Public() vs. DeriveChild on Public(): key bytes, chain code, fingerprint. shift also includes secp256k1 shifts lambda*k and lambda^2*k (the shifted point has the same y as the key and another x). shift: (curve, scalar k, 32-byte shift) with shift in {0, 1, k, n-k, n-k+-1, n-1, n, n+1, 2^256-1, random < n, random >= n, values made of 8..64-bit words that are zero / all ones / one / random} and k in {1, 2, n-1, (n+-1)/2, random, and unreduced scalars in (n, 2^256) — n+1, n+2, random, 2^256-1 — for which the key is built directly from the exported fields of elliptic.PrivateKey (multiples of n have no public key and are skipped)}: PrivateKey.Shift and PublicKey.Shift must both report ErrInvalidKey or both succeed with pub' = point(priv') (the point computed by the affine model for the returned private scalar); no panic. Whether the common verdict/value is the one SLIP-0010 prescribes is counted here and judged by C02. " +
 			"Non-trivial: distinct shift cases in a named corner class and all commute cases.",
 		Assumptions: []string{"math/big", "the affine model in harness/oracle/weier (self-tested)"},
 		SelfTest:    weier.SelfTest,
@@ -385,10 +385,21 @@ func gen(g *fw.Gen) {
 				k = new(big.Int).Set(max)
 			}
 		}
+		if g.Rng.Intn(8) == 0 { // a scalar with zero / all-ones / one-valued words (word-wise scalar multiplication)
+			k = chunky(g)
+			if k.Cmp(N) >= 0 {
+				k.SetBit(k, 255, 0)
+			}
+			if k.Sign() == 0 {
+				k = big.NewInt(1)
+			}
+		}
 		nk := new(big.Int).Sub(N, k)
 		nk.Mod(nk, N)
 		var s *big.Int
-		switch g.Rng.Intn(12) {
+		switch g.Rng.Intn(14) {
+		case 12, 13:
+			s = chunky(g)
 		case 0:
 			s = big.NewInt(0)
 		case 1:
@@ -425,6 +436,26 @@ func gen(g *fw.Gen) {
 		}
 		g.Emit("shift", fw.Pack([]byte{cid}, fill(k), fill(s)))
 	}
+}
+
+// chunky returns a 256-bit value made of 8/16/32/64-bit words that are zero, all ones, one, or random.
+func chunky(g *fw.Gen) *big.Int {
+	w := []int{8, 4, 2, 1}[g.Rng.Intn(4)]
+	b := make([]byte, 32)
+	for c := 0; c < 32; c += w {
+		switch g.Rng.Intn(6) {
+		case 0, 1:
+		case 2:
+			for i := 0; i < w; i++ {
+				b[c+i] = 0xff
+			}
+		case 3:
+			b[c+w-1] = 1
+		default:
+			copy(b[c:c+w], g.Bytes(w))
+		}
+	}
+	return new(big.Int).SetBytes(b)
 }
 
 var _ = fmt.Sprintf
